@@ -75,14 +75,31 @@ type PDBExt struct {
 	Blocking bool `json:"blocking"`
 }
 
+// PoolTable is the instance-type catalog as ONE NodePool sees it.  Price tables are per NodePool: NodeOverlays and cloud
+// providers can select on karpenter.sh/nodepool (committed-use discounts, per-team surcharges), so
+// CloudProvider.GetInstanceTypes(nodePool) may price the same instance type / offering differently for different
+// NodePools, although they reference the same NodeClass.  ITs lists the SAME instance types as the scenario's catalog
+// (names, resources, offerings in the same order) with this NodePool's prices; a NodePool without a table is served the
+// scenario's catalog.
+type PoolTable struct {
+	Pool string     `json:"pool"`
+	ITs  []world.IT `json:"its"`
+}
+
 type RunIn struct {
-	Scn        world.Scenario `json:"scn"`
-	Method     string         `json:"method"` // single | multi | empty
-	SpotToSpot bool           `json:"spotToSpot"`
-	Pools      []PoolExt      `json:"poolExt"`
-	Pods       []PodExt       `json:"podExt"`
-	Nodes      []NodeExt      `json:"nodeExt"`
-	PDBs       []PDBExt       `json:"pdbs"`
+	Scn world.Scenario `json:"scn"`
+	// Tables: per-NodePool price tables (served through the provider's per-NodePool GetInstanceTypes)
+	Tables []PoolTable `json:"tables,omitempty"`
+	// MaxITs: the launch cap scheduling.MaxInstanceTypes for this run (0 = the code's default, 600).  The code keeps the
+	// cap in a package variable "to help in testing": a small cap makes "more compatible instance types than can be sent to
+	// the launch API" reachable with catalogs of a dozen types (Results.TruncateInstanceTypes, minValues after truncation).
+	MaxITs     int       `json:"maxITs,omitempty"`
+	Method     string    `json:"method"` // single | multi | empty
+	SpotToSpot bool      `json:"spotToSpot"`
+	Pools      []PoolExt `json:"poolExt"`
+	Pods       []PodExt  `json:"podExt"`
+	Nodes      []NodeExt `json:"nodeExt"`
+	PDBs       []PDBExt  `json:"pdbs"`
 	// Pick selects the candidates handed to ComputeCommands among the eligible ones (sorted by node name);
 	// empty = all of them
 	Pick []string `json:"pick"`
@@ -91,6 +108,8 @@ type RunIn struct {
 	Churn  *Churn `json:"churn"`
 	// Expect (corpus witnesses): the verdict validation must reach, "released" | "rejected:scheduling" | …; "" = any
 	Expect string `json:"expect,omitempty"`
+	// ExpectDecision (corpus witnesses): the decision of the command that must come out, "none" | "delete" | "replace"; "" = any
+	ExpectDecision string `json:"expectDecision,omitempty"`
 	// ExpectReleased (corpus witnesses of c06.emptyvalidate): the nodes the released Emptiness command must remove
 	// (empty list = no command); nil = any
 	ExpectReleased *[]string `json:"expectReleased,omitempty"`
